@@ -3,7 +3,10 @@ LEVEL = "proof"
 TITLE = "REST/web APIs and the Go client report and change exactly the store's state"
 LEVEL_TEXT = ("proof (Coq) about a model of router + escaping + v1/web-UI handlers + StoreManager glue + the Go client over the "
               "abstract store of C07, tied to the code by a correspondence check on a real net/http server, both real stores and "
-              "the real client; partial for mailbox names containing '/' or equal to '.'/'..' (open finding K-C14-client-slash)")
+              "the real client; partial for mailbox names containing '/' or equal to '.'/'..' (open finding K-C14-client-slash); the client theorems further assume "
+              "names without a space and with bytes < 256 (no such name can receive mail) and ids / base-path segments of unreserved characters; "
+              "json_fields_reflect_store only makes the rendering definitions explicit — each JSON field is tied to the code by the per-field "
+              "correspondence run, and to the store's entries by json_answers_are_store_entries")
 LEVEL_NOTE = ("modelled handlers (every handler of pkg/rest/routes.go and pkg/webui/routes.go that touches the store; the monitor/websocket "
               "endpoints, greeting and status are not): /api/v1 MailboxListV1, MailboxPurgeV1, MailboxShowV1, MailboxMarkSeenV1, MailboxDeleteV1, "
               "MailboxSourceV1; /serve MailboxMessage, MailboxHTML, MailboxSource, MailboxViewAttach; StoreManager.GetMessage/SourceReader/"
@@ -23,7 +26,7 @@ TECHNIQUE = "machine-checked proof in Coq + model/code correspondence check"
 DESIGN_REF = "DESIGN.md §4 C14"
 RULE = ("hist: a random history (4-33 ops) of deliveries, raw HTTP requests (7 path templates, names escaped in 4 valid ways, "
         "k-th/latest/never-issued ids, right and wrong methods, PATCH bodies (seen true / false / not JSON / empty, each framed with Content-Length, chunked or sent as HTTP/1.0, "
-        "with and without unrelated headers — framing and such headers must not matter), attachment numbers) and calls of every method of "
+        "with and without unrelated headers — framing and such headers must not matter), attachment numbers incl. zero-padded ones longer than 20 digits and values beyond 2^32) and calls of every method of "
         "pkg/rest/client, run on the memory and the file store, local/full naming, with and without a base path. "
         "A further stream makes message content unavailable — the content file vanishes (file store), or another client's removal "
         "completes between the manager's look-up and its open (a wrapper around the Store the manager sees) — and asks for the message "
